@@ -7,7 +7,7 @@ pub struct Value { bits: u64 }
 #[derive(Clone, Copy)]
 pub struct LyStr { p: usize }
 
-/// does a value satisfy a declared parameter kind (ParameterKind::is_valid; its body is checked by Kani in kx/sig)
+/// does a value satisfy a declared parameter kind (ParameterKind::is_valid; its real body is verified against the table of admitted values in the sigkind unit)
 pub uninterp spec fn kind_valid(k: ParameterKind, v: Value) -> bool;
 impl ParameterKind {
   #[verifier::external_body] pub fn is_valid(&self, value: Value) -> (r: bool) ensures r == kind_valid(*self, value) { true }
